@@ -14,6 +14,7 @@
 package main
 
 import (
+	"regexp"
 	"bufio"
 	"bytes"
 	"encoding/hex"
@@ -465,6 +466,18 @@ func (p *parent) runBatch(mode string, inputs []Input) {
 		}
 		culprit := pending[i]
 		solo := p.runChild(mode, []Input{culprit}, false)
+		// A SIGQUIT dump of a timeout has no cue frames when the signal lands while the main goroutine runs
+		// on the system stack (GC assist) or on another thread: the known-class recognisers need the frames,
+		// so take the dump of the batch child if it has them, else re-run (at most twice more).
+		for try := 0; solo.death != nil && solo.death.How == "timeout" && !hasCueFrames(solo.death.Detail) && try < 2; try++ {
+			if co.death.How == "timeout" && hasCueFrames(co.death.Detail) {
+				solo.death.Detail = co.death.Detail
+				break
+			}
+			if again := p.runChild(mode, []Input{culprit}, false); again.death != nil && again.death.How == "timeout" && hasCueFrames(again.death.Detail) {
+				solo = again
+			}
+		}
 		if solo.death != nil {
 			if solo.death.How == "startup" {
 				p.harnessErr("solo child failed to start: " + solo.death.Detail)
@@ -478,6 +491,10 @@ func (p *parent) runBatch(mode string, inputs []Input) {
 		pending = pending[i+1:]
 	}
 }
+
+var cueFrameRe = regexp.MustCompile(`(?m)^  (cue|internal|pkg|encoding|mod|tools|cmd|cuego|unstable)/`)
+
+func hasCueFrames(detail string) bool { return cueFrameRe.MatchString(detail) }
 
 func firstDiff(a, b string) string {
 	la, lb := strings.Split(a, "\n"), strings.Split(b, "\n")
